@@ -281,6 +281,83 @@ example : 989108 + (1000 + 989108 * 10000 / 1000000) ≤ 1000000 := by decide
 -- the excess is real for P ≥ 10⁶: bound 1 on a hop that can carry 1 msat with a 200 % fee after it (1 + 2 > 1)
 example : hop_max_final_value_contribution 1 0 2000000 = some 1 ∧ ¬ (1 + (0 + 1 * 2000000 / 1000000) ≤ 1) := by decide
 
+/-- loop invariant of PaymentPath::max_final_value_msat (model `maxFinalGo`, tied to the real function by the
+    `maxfinal` differential): the value it returns is within the running minimum and within the generated
+    per-hop bound of every hop it visited -/
+private theorem maxFinalGo_bound (pow : Nat) : ∀ (hops : List MHop) (idx : Nat) (best : Nat × Nat) (i v : Nat),
+    maxFinalGo pow idx hops best = .ok i v →
+    v ≤ best.2 ∧ ∀ pre hp rest, hops = pre ++ hp :: rest →
+      ∃ B P c, aggregateFees (rest.map fun r => (r.base, r.prop)) = some (B, P) ∧
+        hop_max_final_value_contribution (hop_max_msat hp.cap pow hp.used) B P = some c ∧ v ≤ c := by
+  intro hops
+  induction hops with
+  | nil =>
+    intro idx best i v h
+    simp only [maxFinalGo, MaxFinal.ok.injEq] at h
+    refine ⟨by omega, ?_⟩
+    intro pre hp rest he
+    cases pre <;> simp at he
+  | cons h t ih =>
+    intro idx best i v hgo
+    rw [maxFinalGo] at hgo
+    cases hc : hopContribution pow h t with
+    | none => simp [hc] at hgo
+    | some oc =>
+      cases oc with
+      | none => simp [hc] at hgo
+      | some c =>
+        simp only [hc] at hgo
+        obtain ⟨hv, hrest⟩ := ih _ _ i v hgo
+        have hb : (if c ≤ best.2 then (idx, c) else best).2 ≤ best.2 ∧ (if c ≤ best.2 then (idx, c) else best).2 ≤ c := by
+          by_cases hle : c ≤ best.2
+          · simp [hle]
+          · simp [hle]; omega
+        refine ⟨by omega, ?_⟩
+        intro pre hp rest he
+        cases pre with
+        | nil =>
+          simp only [List.nil_append, List.cons.injEq] at he
+          obtain ⟨rfl, rfl⟩ := he
+          unfold hopContribution at hc
+          cases ha : aggregateFees (t.map fun r => (r.base, r.prop)) with
+          | none => simp [ha] at hc
+          | some bp =>
+            obtain ⟨B, P⟩ := bp
+            simp only [ha, Option.some.injEq] at hc
+            cases hm : hop_max_final_value_contribution (hop_max_msat h.cap pow h.used) B P with
+            | none => simp [hm] at hc
+            | some c0 =>
+              simp only [hm, Option.map_some, Option.some.injEq] at hc
+              have : c ≤ c0 := by rw [← hc]; exact Nat.min_le_left _ _
+              exact ⟨B, P, c0, ha, hm, by omega⟩
+        | cons x pre' =>
+          simp only [List.cons_append, List.cons.injEq] at he
+          exact hrest pre' hp rest he.2
+
+/-- PaymentPath::max_final_value_msat: the contribution it returns, plus the AGGREGATED fee of the hops after a
+    hop (compute_aggregated_base_prop_fee, both update statements translated), fits under that hop's remaining
+    maximum (generated `hop_max_msat`: max_htlc_from_capacity less the liquidity already used) — up to ⌊P/10⁶⌋
+    msat, i.e. exactly when the aggregated proportional fee is below 100 %.  For every hop of every path. -/
+theorem max_final_value_sound (pow : Nat) (hops : List MHop) (i v : Nat)
+    (h : maxFinalValue pow hops = .ok i v) :
+    ∀ pre hp rest, hops = pre ++ hp :: rest →
+      ∃ B P, aggregateFees (rest.map fun r => (r.base, r.prop)) = some (B, P) ∧
+        v + (B + v * P / 1000000) ≤ hop_max_msat hp.cap pow hp.used + P / 1000000 := by
+  intro pre hp rest he
+  obtain ⟨_, hall⟩ := maxFinalGo_bound pow hops 0 (0, U64_MAX) i v h
+  obtain ⟨B, P, c, ha, hm, hv⟩ := hall pre hp rest he
+  exact ⟨B, P, ha, max_contribution_within_hop_max _ B P c v hm hv⟩
+
+def exMHops : List MHop :=
+  [ { base := 0, prop := 0, cap := .exactLiquidity 5, used := 0 }, { base := 1, prop := 1, cap := .infinite, used := 0 } ]
+-- the hop that can carry 5 msat before a hop charging 1 msat + 1 ppm is credited with 3 msat, although 4 + fee(4) = 5
+-- fits: the rounding behind the candidate finding "max_path_count exceeded" (⌈8/2⌉ = 4 is the minimal contribution)
+example : maxFinalValue 0 exMHops = .ok 0 3 := by decide
+example : compute_fees 4 1 1 = some 1 ∧ 4 + 1 ≤ 5 := by decide
+example : aggregateFees [(1000, 10000), (500, 20000)] = some (1505, 30200) := by decide
+
+example : aggregateFees [(7, 250000)] = some (7, 250000) := by decide
+
 /-- get_route's CLTV budget for the hops before the final one (pinned statement): whatever passes the search's
     `exceeds_cltv_delta_limit` test leaves room for the final delta within max_total_cltv_expiry_delta (get_route
     refuses `max_total_cltv_expiry_delta <= final_cltv_expiry_delta` beforehand).  The C16-r3 site. -/
